@@ -36,7 +36,8 @@ var defects = []string{"import-cycle", "import-self", "include-cycle", "typedef-
 	"typedef-cycle-local-case", "typedef-cycle-local-augment", "typedef-cycle-local-uses-augment", "typedef-cycle-local-list",
 	"dangling-uses-augment-absolute", "illegal-config-in-remote-grouping", "illegal-default-in-remote-grouping",
 	"dangling-unique-last", "dangling-unique-inner", "dangling-unique-skips-choice", "dangling-unique-via-list", "dangling-unique-non-leaf",
-	"odd-extension-prefix", "odd-extension-name", "illegal-grouping-uses-deprecated-grouping", "include-self", "dangling-import-include-chain", "illegal-xpath-prefix-twin"}
+	"odd-extension-prefix", "odd-extension-name", "illegal-grouping-uses-deprecated-grouping", "include-self", "dangling-import-include-chain", "illegal-xpath-prefix-twin",
+	"odd-feature-chain-into-other-module"}
 
 func str(s string) *sg.TypeSpec { return &sg.TypeSpec{Name: s} }
 
@@ -98,7 +99,7 @@ func inject(mods []*sg.Mod, d string, pick func(n int) int) {
 		// submodules are appended by the caller through extra modules
 	case "include-self", "dangling-import-include-chain":
 		host.Includes = append(host.Includes, "sa")
-	case "illegal-xpath-prefix-twin":
+	case "illegal-xpath-prefix-twin", "odd-feature-chain-into-other-module":
 		// handled by the caller (two extra modules)
 	case "typedef-cycle-used":
 		m.Typedefs = append(m.Typedefs, &sg.Typedef{Name: "cyc-a", Type: str("cyc-b")}, &sg.Typedef{Name: "cyc-b", Type: str("cyc-a")})
@@ -320,6 +321,18 @@ func extraMods(c Case) []*sg.Mod {
 		good := &sg.Mod{Name: "zgood", Prefix: "zg", Imports: []sg.Import{{Mod: mods[0].Name, Prefix: "px"}}, Groupings: gr()}
 		bad := &sg.Mod{Name: "zbad", Prefix: "zb", Groupings: gr()}
 		return append(append([]*sg.Mod(nil), mods...), good, bad)
+	case "odd-feature-chain-into-other-module":
+		// a feature that depends on a feature which the module named by the prefix does not define, and data nodes that
+		// depend on either: refused, or (compiled in the tolerant mode) the same tree whichever of the two modules
+		// is looked at first
+		fa := &sg.Mod{Name: "zfa", Prefix: "zfa", Imports: []sg.Import{{Mod: "zfb", Prefix: "zfb"}},
+			Features: []*sg.Feature{{Name: "cyc-fa", IfFeatures: []string{"zfb:cyc-ghost"}}},
+			Nodes: []*sg.Node{{Kind: "container", Name: "zfa-top", Kids: []*sg.Node{
+				{Kind: "leaf", Name: "x", Type: str("string"), IfFeatures: []string{"zfb:cyc-ghost"}},
+				{Kind: "leaf", Name: "y", Type: str("string"), IfFeatures: []string{"cyc-fa"}}}}}}
+		fb := &sg.Mod{Name: "zfb", Prefix: "zfb", Features: []*sg.Feature{{Name: "cyc-real"}},
+			Nodes: []*sg.Node{{Kind: "container", Name: "zfb-top", Kids: []*sg.Node{{Kind: "leaf", Name: "z", Type: str("string"), IfFeatures: []string{"cyc-real"}}}}}}
+		return append(append([]*sg.Mod(nil), mods...), fa, fb)
 	case "belongs-to-missing":
 		return append(append([]*sg.Mod(nil), mods...), &sg.Mod{Name: "orphan", Prefix: "own", BelongsTo: "no-such-module"})
 	case "illegal-config-in-remote-grouping", "illegal-default-in-remote-grouping":
@@ -387,6 +400,9 @@ func genCase(t *rapid.T) Case {
 	if g.Chance(2, 5, "defect") {
 		c.Defect = defects[g.Pick(len(defects), "which")]
 		inject(c.Mods, c.Defect, func(n int) int { return g.Pick(n, "where") })
+		if c.Defect == "odd-feature-chain-into-other-module" && g.Chance(3, 4, "tolerant") {
+			c.SkipUnknown = true
+		}
 	} else if g.Chance(1, 2, "mutate") {
 		c.Mutations = mutate(c.Mods, func(n int, l string) int { return g.Pick(n, l) })
 	}
